@@ -23,7 +23,7 @@ struct TypeObj {
     bool contiguous() const { return segs.size() <= 1 && (segs.empty() || (segs[0].len == size)); }
 };
 
-struct TypeSlot { std::shared_ptr<TypeObj> obj; bool live = false; int owner = -1; bool in_lib = false; };
+struct TypeSlot { std::shared_ptr<TypeObj> obj; bool live = false; int owner = -1; bool in_lib = false; std::string site; };
 std::shared_ptr<TypeObj> type_lookup(MPI_Datatype h, const char *who, bool need_commit = false);
 MPI_Datatype type_register(std::shared_ptr<TypeObj> t);
 void types_reset();
